@@ -139,7 +139,21 @@ fn exact_2d(d: &mut Draw) -> Outcome {
 }
 
 fn f64_3d(d: &mut Draw) -> Outcome {
-    let a = f_unit3(d);
+    // a generic unit axis, or one a hair (1e-11 .. 1e-4) off a coordinate axis: below 1.5e-8 the dominant component of
+    // the normalised axis is exactly +-1.0 although the axis is not the coordinate axis
+    let a = if d.chance(1, 6) {
+        let k = d.below(3);
+        let mut v = [0.0f64; 3];
+        v[k] = if d.bool() { 1.0 } else { -1.0 };
+        for i in 0..3 {
+            if i != k && d.chance(2, 3) {
+                v[i] = d.f64_slog(1e-11, 1e-4);
+            }
+        }
+        fnormalize3(&v)
+    } else {
+        f_unit3(d)
+    };
     let use_deg = d.bool();
     let gen_t = |d: &mut Draw| match d.int(0, 6) {
         0 => d.f64_slog(1e-14, 1e-2),
